@@ -88,6 +88,7 @@ DEFAULT_PROFILE = {
     'multi_import_clauses': True,
     'allow_no_imports': True,
     'reuse_names': True,          # a module may declare a node named like a node of an earlier module
+    'macro_end_substring': None,  # MACRO bodies containing END inside longer words (D25); None = unless D25 is open
 
     'plain_type_from_local_tc': True,   # D35
     'augments_forward_oid': True,       # D36: augmented row sorts after the augmenting row
@@ -103,6 +104,10 @@ def profile(**kw):
         if k not in p:
             raise KeyError(k)
     p.update(kw)
+    if p['macro_end_substring'] is None:
+        from vlib.core import load_findings
+        f = load_findings(None).get('D25')
+        p['macro_end_substring'] = not (f and f.get('state') == 'known')
     return p
 
 
@@ -958,11 +963,22 @@ def _body(draw, forbid):
     return s or 'x'
 
 
+_END_WORD = re.compile(r'(?<![-a-zA-Z0-9])END(?![-a-zA-Z0-9])')
+
+
 def _gen_macro(b, mod):
     draw = b.draw
     allowed = MACRO_NAMES
-    # the body must not contain the substring END (finding D25 class is probed separately)
-    body = _body(draw, ('E', 'N', 'D'))
+    if b.prof['macro_end_substring']:
+        # the body ends at the first END that stands as a word of its own; END inside longer words is body text
+        body = draw(ctext(_BODY_ALPHABET + 'END', min_size=1, max_size=40))
+        if draw(st.booleans()):
+            k = draw(st.integers(0, len(body)))
+            body = body[:k] + ' ' + draw(st.sampled_from(('SEND', 'DEPENDS', 'ENDED', 'BACK-END', 'END-USER', 'xEND', 'END9', '7END'))) + ' ' + body[k:]
+        body = _END_WORD.sub('ENDx', body) or 'x'
+    else:
+        # open finding D25: the body must not contain the substring END
+        body = _body(draw, ('E', 'N', 'D'))
     body = 'BEGIN ' + body.replace('--', '- -')
     return [{'k': 'macro', 'name': draw(st.sampled_from(allowed)), 'body': body}]
 
@@ -1080,7 +1096,7 @@ def _order_constraints_ok(decls, prof):
 
 @st.composite
 def module_sets(draw, prof=None):
-    prof = prof or DEFAULT_PROFILE
+    prof = prof or profile()
     b = Builder(draw, prof)
     nmods = draw(st.integers(*prof['modules']))
     for mi in range(nmods):
